@@ -1,9 +1,151 @@
 (** C02 -- cache keeps the newest value per leaf (timestamp discipline).
-    Only property theorems, each closed by [exact] of a lemma proved
-    elsewhere, with [Print Assumptions] beneath. *)
-From Gnmi Require Import Base.Prelude CTree.CTreeModel Path.PathModel Cache.CacheModel Cache.CacheProofs.
+    Only the property theorems, each closed by [exact] of a lemma proved in
+    Cache/CacheProofs.v, with [Print Assumptions] beneath.
 
-Theorem C02_check_timestamp_ge :
-  forall t ts z, t_ts (check_timestamp t ts) = Some z -> (ts <= z)%Z.
-Proof. exact check_timestamp_ge. Qed.
-Print Assumptions C02_check_timestamp_ge.
+    Vocabulary (CacheModel.v / CacheProofs.v): a history is a list of
+    (clock reading, notification); [trun t H] runs Target.GnmiUpdate over it;
+    [clean_history t H]: no call panicked or refused a unit for a schema
+    collision; [project t H q]: the events of H that concern index path q
+    ([LUpd now latest m]: a unit m addressed to q, with the clock and the
+    target's latest accepted timestamp at that moment; [LDel T]: a delete at
+    time T whose path matches q); [spec_leaf] folds the four-line rule
+    [spec_leaf_step] over them. *)
+From Gnmi Require Import Base.Prelude CTree.CTreeModel CTree.CTreeProofs Path.PathModel
+  Cache.CacheModel Cache.CacheProofs Cache.C02Check.
+Local Open Scope Z_scope.
+
+(** the refinement: for EVERY history on a fresh target and EVERY index path,
+    the leaf holds exactly what the per-leaf rule computes from the events
+    that concern it (hence also: what has no event does not change) *)
+Theorem C02_leaf_holds_newest :
+  forall name cfg (H : hist) (q : path),
+    clean_history (new_target name cfg) H ->
+    lookup (t_tree (trun (new_target name cfg) H)) q =
+    spec_leaf (cfg_future_threshold cfg) (project (new_target name cfg) H q).
+Proof. exact leaf_holds_newest. Qed.
+Print Assumptions C02_leaf_holds_newest.
+
+(** the same from any well-formed state (any reachable tree) *)
+Theorem C02_leaf_holds_newest_from :
+  forall t (H : hist) (q : path),
+    wf_tree (t_tree t) -> clean_history t H ->
+    lookup (t_tree (trun t H)) q =
+    fold_left (spec_leaf_step (thr_of t)) (project t H q) (lookup (t_tree t) q).
+Proof. exact leaf_holds_newest_from. Qed.
+Print Assumptions C02_leaf_holds_newest_from.
+
+(** one notification (single, multi, atomic, delete, empty) acts on every leaf
+    as the fold of its units' events, updates first, then deletes *)
+Theorem C02_notification_is_event_fold :
+  forall t now n t' fd r,
+    wf_tree (t_tree t) -> target_gnmi_update t now n = (t', fd, r) -> clean r ->
+    wf_tree (t_tree t') /\ t_cfg t' = t_cfg t /\ t_name t' = t_name t /\
+    forall q, lookup (t_tree t') q = lookup_after t now q (units n) (lookup (t_tree t) q).
+Proof. exact notif_leaf. Qed.
+Print Assumptions C02_notification_is_event_fold.
+
+Theorem C02_stale_rejected_noop :
+  forall t now n u us p old,
+    n_upd n = u :: us -> unit_index n = Ok p -> p <> [] -> is_real p = true ->
+    lookup (t_tree t) p = Some old ->
+    (n_ts n < n_ts old \/ (n_ts n = n_ts old /\ notif_eqb old n = true)) ->
+    gnmi_update1 t now n = (add_int t md_stale_count 1, Err err_stale).
+Proof. exact stale_rejected_noop. Qed.
+Print Assumptions C02_stale_rejected_noop.
+
+Theorem C02_equal_ts_replaces :
+  forall t now n u us p old t' r,
+    wf_tree (t_tree t) ->
+    n_upd n = u :: us -> unit_index n = Ok p -> p <> [] -> is_real p = true ->
+    lookup (t_tree t) p = Some old ->
+    n_ts n = n_ts old -> notif_eqb old n = false ->
+    gnmi_update1 t now n = (t', r) ->
+    r <> Err err_stale /\ r <> Err err_future /\ ~ collision r /\
+    lookup (t_tree t') p = Some n /\
+    forall q, q <> p -> lookup (t_tree t') q = lookup (t_tree t) q.
+Proof. exact equal_ts_replaces. Qed.
+Print Assumptions C02_equal_ts_replaces.
+
+Theorem C02_future_rejected_noop :
+  forall t now n u us p old,
+    n_upd n = u :: us -> unit_index n = Ok p -> p <> [] -> is_real p = true ->
+    lookup (t_tree t) p = Some old ->
+    n_ts old < n_ts n ->
+    future_guard (thr_of t) now (t_ts t) (n_ts n) = true ->
+    gnmi_update1 t now n = (add_int t md_future_count 1, Err err_future).
+Proof. exact future_rejected_noop. Qed.
+Print Assumptions C02_future_rejected_noop.
+
+Theorem C02_newer_accepted :
+  forall t now n u us p t' r,
+    wf_tree (t_tree t) ->
+    n_upd n = u :: us -> unit_index n = Ok p -> p <> [] -> is_real p = true ->
+    (lookup (t_tree t) p = None \/
+     exists old, lookup (t_tree t) p = Some old /\ n_ts old < n_ts n /\
+                 future_guard (thr_of t) now (t_ts t) (n_ts n) = false) ->
+    gnmi_update1 t now n = (t', r) -> ~ collision r ->
+    lookup (t_tree t') p = Some n.
+Proof. exact newer_accepted. Qed.
+Print Assumptions C02_newer_accepted.
+
+Theorem C02_delete_exact :
+  forall t n p t' r,
+    wf_tree (t_tree t) -> del_ok n = Some p -> gnmi_remove t n = (t', r) ->
+    (forall s, lookup (t_tree t') s =
+               match lookup (t_tree t) s with
+               | Some v => if qmatch p s && Z.ltb (n_ts v) (n_ts n) then None else Some v
+               | None => None
+               end) /\
+    exists removed, r = Ok removed /\
+      forall v, In v removed <->
+                exists s, lookup (t_tree t) s = Some v /\ qmatch p s = true /\ n_ts v < n_ts n.
+Proof. exact delete_exact. Qed.
+Print Assumptions C02_delete_exact.
+
+Theorem C02_collision_rejected_noop :
+  forall t now n u us p t' r,
+    n_upd n = u :: us -> unit_index n = Ok p -> p <> [] -> is_real p = true ->
+    gnmi_update1 t now n = (t', r) -> collision r -> t' = t.
+Proof. exact collision_rejected_noop. Qed.
+Print Assumptions C02_collision_rejected_noop.
+
+Theorem C02_collision_iff :
+  forall t now n u us p t' r,
+    wf_tree (t_tree t) ->
+    n_upd n = u :: us -> unit_index n = Ok p -> p <> [] -> is_real p = true ->
+    gnmi_update1 t now n = (t', r) ->
+    (collision r <->
+     exists q w, lookup (t_tree t) q = Some w /\ (strict_prefix q p = true \/ strict_prefix p q = true)).
+Proof. exact collision_iff. Qed.
+Print Assumptions C02_collision_iff.
+
+(** the latest accepted timestamp (reference of the future guard) only grows,
+    and only to the timestamp of the notification being processed *)
+Theorem C02_latest_step :
+  forall t now n,
+    let t' := fst (fst (target_gnmi_update t now n)) in
+    t_ts t' = t_ts t \/
+    (t_ts t' = Some (n_ts n) /\ tracks_ts n = true /\
+     match t_ts t with Some z => z < n_ts n | None => True end).
+Proof. exact latest_step. Qed.
+Print Assumptions C02_latest_step.
+
+(** K_P (the executable specification run on the implementation's answers)
+    applies the very rule the theorems are about *)
+Theorem C02_K_leaf_rule_sound :
+  forall thr now latest old m,
+    match fst (leaf_update thr now latest old m) with
+    | Some v => Some v
+    | None => old
+    end = spec_leaf_step thr old (LUpd now latest m).
+Proof. exact K_leaf_rule_sound. Qed.
+Print Assumptions C02_K_leaf_rule_sound.
+
+Theorem C02_K_leaf_class_sound :
+  forall thr now latest o m,
+    snd (leaf_update thr now latest (Some o) m) =
+    if Z.ltb (n_ts m) (n_ts o) then RStale
+    else if Z.eqb (n_ts m) (n_ts o) then (if notif_eqb o m then RStale else ROk)
+    else if future_guard thr now latest (n_ts m) then RFuture else ROk.
+Proof. exact K_leaf_class_sound. Qed.
+Print Assumptions C02_K_leaf_class_sound.
